@@ -20,8 +20,9 @@ def config? (j : Json) : Option Config := do
          outDir := b j "outDir" false, resume := b j "resume" false
          transitionsArity := n j "transitionsArity" 1, inspectArity := n j "inspectArity" 1
          terminateArity := n j "terminateArity" 1, targetScalar := b j "targetScalar" true
-         sanity := b j "sanity" true, typesOk := b j "typesOk" true, controllerNone := b j "controllerNone" false
-         nSamples := n j "nSamples" 1, fresh0 := b j "fresh0" true, dryRun := b j "dryRun" false
+         sanity := b j "sanity" true, typesOk := b j "typesOk" true
+         ctrlNoneAt := ((field? j "ctrlNoneAt").bind (listOf? getBool?)).getD []
+         nSamplesAt := (fNatList? j "nSamplesAt").getD [], fresh0 := b j "fresh0" true, dryRun := b j "dryRun" false
          terminateAt := fNat? j "terminateAt", returnFinal := b j "returnFinal" false
          prevOutDir := b j "prevOutDir" false }
 
